@@ -104,12 +104,26 @@ func genC01(r *Rnd, t Tier) *Case {
 	}
 	n := r.Range(1, maxP)
 	var stack []int
+	hedges := 0
 	for i := 0; i < n; i++ {
 		if len(sc.Policies) > 0 && r.P(0.12) {
-			stack = append(stack, r.Intn(len(sc.Policies))) // repetition of an instance
-			continue
+			k := r.Intn(len(sc.Policies))
+			if sc.Policies[k].Kind == KHedge {
+				hedges++
+			}
+			if hedges <= 2 {
+				stack = append(stack, k) // repetition of an instance
+				continue
+			}
 		}
-		sc.Policies = append(sc.Policies, genPolicy(r, pick(r, allKinds...), unit))
+		kind := pick(r, allKinds...)
+		if kind == KHedge {
+			hedges++
+			if hedges > 2 {
+				kind = KRetry // more than two nested hedges multiply attempts beyond what a run should hold
+			}
+		}
+		sc.Policies = append(sc.Policies, genPolicy(r, kind, unit))
 		stack = append(stack, len(sc.Policies)-1)
 	}
 	sc.Stacks = [][]int{stack}
@@ -133,6 +147,10 @@ func genC01(r *Rnd, t Tier) *Case {
 
 func checkProgress(c *checkCtx, prefix string) bool {
 	o := c.Res.Out
+	if o.TaskOverflow {
+		c.cov("scenario_abandoned_task_overflow")
+		return false
+	}
 	if o.Stalled || o.Deadlock || o.Livelock {
 		c.fail(prefix+"progress", "stall", "the run did not finish: stalled="+boolStr(o.Stalled)+" deadlock="+boolStr(o.Deadlock)+" livelock="+boolStr(o.Livelock))
 		return false
